@@ -204,7 +204,7 @@ Lemma declaration_loop_S f F p : declaration_loop (S f) F p =
          end
      end
    else if is_t t TLeftBrace && (plevel p =? 0) && isstyle p then
-     POk (GBeginRuleset, push_st (set_tok p TWhitespace []) SQualifiedRuleDeclarationList)
+     POk (GBeginRuleset, push_st (set_tok (set_buf p (sel_compact [] false (pbuf p))) TWhitespace []) SQualifiedRuleDeclarationList)
    else if closes t && (plevel p =? 0) then parse_declaration_error F (set_err p true) t d
    else
      let p := adjust_level p t in
@@ -646,23 +646,152 @@ Proof.
   split; [reflexivity|]. split; [rewrite S1; exact Hkw0|rewrite S7; exact Hsty0].
 Qed.
 
+(* --- nested rulesets -------------------------------------------------------------------------------------------------- *)
+(* the selector compaction of a nested ruleset gives the same Values() as the loop of a top-level selector *)
+Lemma sel_compact_sp last out ia nxt rest : sel_compact (last :: out) ia (sp :: nxt :: rest) =
+  if ia || is_combinator (snd last) || is_combinator (snd nxt) then sel_compact (last :: out) ia (nxt :: rest)
+  else sel_compact (sp :: last :: out) ia (nxt :: rest).
+Proof. reflexivity. Qed.
+
+Lemma sel_compact_buf : forall r t out ia, is_wstok t = false -> Forall (fun x => is_wstok (snd x) = false) r ->
+  sel_compact (t :: out) ia (buf_toks r) = rev out ++ t :: sel_buf (combinator (snd t)) ia r.
+Proof.
+  induction r as [|[o [tt bb]] r IH]; intros t out ia Ht Hr.
+  - cbn [buf_toks flat_map sel_compact sel_buf rev]. reflexivity.
+  - inversion Hr as [|? ? Hx Hr']; subst. cbn [snd] in Hx. rewrite buf_toks_cons. cbn [sel_buf fst snd].
+    assert (Hnext : forall out', sel_compact out' ia ((tt, bb) :: buf_toks r) =
+                                 rev out' ++ (tt, bb) :: sel_buf (combinator bb) (ia_next ia tt) r).
+    { intros out'. cbn [sel_compact]. rewrite Hx. cbn [andb fst]. rewrite (IH (tt, bb) out' _ Hx Hr'). reflexivity. }
+    destruct o as [wb|]; cbn [isws app].
+    + rewrite sel_compact_sp. cbn [snd]. unfold addws_sel.
+      change (is_combinator (snd t)) with (combinator (snd t)). change (is_combinator bb) with (combinator bb).
+      destruct (ia || combinator (snd t) || combinator bb) eqn:Ec; rewrite Hnext; cbn [rev];
+        destruct ia, (combinator (snd t)), (combinator bb); try discriminate Ec; cbn [negb andb app]; rewrite <- ?app_assoc; reflexivity.
+    + unfold addws_sel. rewrite andb_false_r. cbn [andb app]. rewrite Hnext. cbn [rev]. rewrite <- app_assoc. reflexivity.
+Qed.
+
+Lemma sel_compact_expected o1 t1 b1 sl : is_wstok (t1, b1) = false -> Forall (fun x => is_wstok (snd x) = false) sl ->
+  sel_compact [] false ((t1, b1) :: buf_toks sl) = expected_sel ((o1, (t1, b1)) :: sl).
+Proof.
+  intros H1 Hs. cbn [sel_compact]. rewrite H1. cbn [andb fst]. rewrite (sel_compact_buf sl (t1, b1) [] _ H1 Hs).
+  unfold expected_sel. cbn [sel_buf fst snd rev app].
+  assert (Hno : addws_sel (isws o1) true false b1 = false) by (unfold addws_sel; destruct (combinator b1), (isws o1); reflexivity).
+  rewrite Hno. reflexivity.
+Qed.
+
+(* the '{' of a nested ruleset in the loop of parseDeclaration *)
+Lemma decl_begin f F p o lb ts : css_inv (pl p) -> keepws p = false -> (1 <= F)%nat -> plevel p = 0 -> isstyle p = true ->
+  lexes (pl p) (optws o ++ (TLeftBrace, lb) :: ts) ->
+  exists z', css_inv z' /\ lexes z' ts /\
+    declaration_loop (S f) F p =
+      POk (GBeginRuleset, push_st (set_tok (set_buf (relex p z' (isws o) false) (sel_compact [] false (pbuf p))) TWhitespace [])
+                                  SQualifiedRuleDeclarationList).
+Proof.
+  intros Hi Hkw HF Hlv Hsty Hl.
+  destruct (pop_token_ows F false p o TLeftBrace lb ts Hi Hkw Hl eq_refl HF) as (z' & Hpop & Hl' & Hi').
+  exists z'. split; [exact Hi'|]. split; [exact Hl'|].
+  rewrite declaration_loop_S, Hpop. cbn [pbind fst snd]. unfold ends_unit. cbn [relex plevel pbuf isstyle]. rewrite Hlv, Hsty.
+  evis. cbn [Z.eqb orb andb]. reflexivity.
+Qed.
+
+(* the first token of the selector of a nested ruleset (not covered: a selector that starts with a delimiter such as
+   '.', '&' or '>') *)
+Definition nest_first (t : ttype) : bool := is_t t TIdent || is_t t THash || is_t t TColon || is_t t TLeftBracket.
+
+Lemma nest_head p st0 o1 t1 b1 ts : wf_state p (SQualifiedRuleDeclarationList :: st0) (optws o1 ++ (t1, b1) :: ts) ->
+  nest_first t1 = true ->
+  exists p0, parse_next p = declaration_loop (next_fuel p) (next_fuel p) p0 /\ css_inv (pl p0) /\ lexes (pl p0) ts /\
+    pbuf p0 = [(t1, b1)] /\ ptt p0 = t1 /\ pdata p0 = b1 /\ pst p0 = SQualifiedRuleDeclarationList :: st0 /\
+    plevel p0 = tok_lv 0 t1 /\ prevend p0 = false /\ keepws p0 = false /\ isstyle p0 = true /\ perr p0 = false.
+Proof.
+  intros (Hi & Hl & Hst & Hlv & Hpe & Hkw & Hsty) Hfirst.
+  assert (Hp1 : plain_tok t1 = true) by (destruct t1; try discriminate Hfirst; reflexivity).
+  unfold parse_next. cbv zeta. change (prevend (set_err p false)) with (prevend p). rewrite Hpe.
+  destruct (pop_token_ows (next_fuel p) true (set_err p false) o1 t1 b1 ts Hi Hkw Hl Hp1 (next_fuel_pos p Hi))
+    as (z1 & Hpop & Hl1 & Hi1).
+  rewrite Hpop. cbn [pbind fst snd]. cbn [set_tok relex set_err pst]. rewrite Hst.
+  unfold parse_qualified_rule_declaration_list.
+  rewrite skip_semicolons_none by (cbn [set_tok ptt]; destruct t1; try discriminate Hfirst; discriminate).
+  cbn [pbind]. cbv zeta.
+  destruct t1; try discriminate Hfirst; cbn [set_tok ptt]; evis; cbn [orb];
+    unfold parse_declaration_list; cbn [set_tok ptt]; evis; cbn [pbind];
+    (rewrite skip_semicolons_none by (cbn; discriminate)); cbn [pbind set_tok ptt]; evis; cbn [pbind orb]; cbv zeta; cbn [set_tok ptt]; evis;
+    cbn [orb andb isstyle set_tok relex set_err]; rewrite ?Hsty; cbn [orb andb];
+    unfold parse_declaration; cbn [set_tok ptt pdata]; evis; cbv beta iota;
+    (eexists; split; [reflexivity|];
+     cbn [set_level set_buf set_tok relex set_err pl pbuf ptt pdata pst plevel prevend keepws isstyle perr];
+     split; [exact Hi1|]; split; [exact Hl1|]; unfold tok_lv; cbn; rewrite ?Hlv; repeat split; assumption).
+Qed.
+
+(* a nested ruleset: selector tokens, '{' *)
+Lemma step_nested p st0 o1 t1 b1 (sl : list wtok) o2 lb ts :
+  wf_state p (SQualifiedRuleDeclarationList :: st0) (src_toks ((o1, (t1, b1)) :: sl) ++ optws o2 ++ (TLeftBrace, lb) :: ts) ->
+  nest_first t1 = true -> toks_ok 0 ((o1, (t1, b1)) :: sl) -> lv_after 0 ((o1, (t1, b1)) :: sl) = 0 ->
+  exists p', parse_next p = POk (GBeginRuleset, p') /\ ptt p' = TWhitespace /\ pdata p' = [] /\
+    pbuf p' = expected_sel ((o1, (t1, b1)) :: sl) /\ perr p' = false /\
+    wf_state p' (SQualifiedRuleDeclarationList :: SQualifiedRuleDeclarationList :: st0) ts.
+Proof.
+  intros Hw Hfirst Hok Hlv0. pose proof Hw as (Hi & Hl & _).
+  rewrite src_toks_cons in Hw, Hl. cbn [toks_ok fst snd] in Hok. destruct Hok as (Hv1 & Hok). cbn [lv_after fst snd] in Hlv0.
+  destruct (nest_head p st0 o1 t1 b1 _ Hw Hfirst) as (p0 & Hpn & Hi0 & Hl0 & Hb0 & Ht0 & Hd0 & Hst0 & Hlv & Hpe0 & Hkw0 & Hsty0 & Herr0).
+  destruct (vtok_ok_inv _ _ Hv1) as (_ & _ & _ & _ & _ & _ & Hws1).
+  assert (HN : exists f', next_fuel p = S (length sl + S f')).
+  { pose proof (lexes_len _ _ Hi Hl) as Hlen. eapply fuel_split; [exact Hlen|].
+    rewrite app_length. cbn [length]. rewrite app_length. rewrite app_length. cbn [length]. pose proof (src_toks_len sl) as Hsl.
+    clear - Hsl. unfold wtok, tok in *. lia. }
+  destruct HN as (f' & HN). assert (HF : (1 <= next_fuel p)%nat) by (apply next_fuel_pos; exact Hi).
+  assert (Hq : forall q, declaration_loop (next_fuel p) (next_fuel p) q = declaration_loop (S (length sl + S f')) (next_fuel p) q)
+    by (intros q; rewrite HN at 1; reflexivity).
+  rewrite Hpn, Hq. clear Hq.
+  (* the loop needs at least one iteration per token; the first S is spent on ... nothing: shift it *)
+  assert (Hshift : S (length sl + S f') = (length sl + S (S f'))%nat) by lia. rewrite Hshift.
+  destruct (decl_values (next_fuel p) (optws o2 ++ (TLeftBrace, lb) :: ts) HF sl (S (S f')) p0) as (p2 & Hrun & Hi2 & Hl2 & Hb2 & Hlv2 & Hs2).
+  { exact Hi0. } { exact Hkw0. } { exact Hl0. } { rewrite Hlv. exact Hok. }
+  { exists [], (t1, b1). split; [rewrite Hb0; reflexivity|exact Hws1]. }
+  rewrite Hrun. destruct Hs2 as (S1 & S2 & S3 & S4 & S5 & S6 & S7).
+  destruct (decl_begin (S f') (next_fuel p) p2 o2 lb ts Hi2) as (z3 & Hi3 & Hl3 & Heq3).
+  { rewrite S1. exact Hkw0. } { exact HF. } { rewrite Hlv2, Hlv. exact Hlv0. } { rewrite S7. exact Hsty0. } { exact Hl2. }
+  rewrite Heq3. eexists. split; [reflexivity|].
+  cbn [push_st set_st set_tok set_buf relex ptt pdata pbuf perr].
+  split; [reflexivity|]. split; [reflexivity|].
+  split.
+  { rewrite Hb2, Hb0. cbn [app]. apply sel_compact_expected; [exact Hws1|]. eapply toks_ok_nonws; exact Hok. }
+  split; [rewrite S5; exact Herr0|].
+  unfold wf_state. cbn [push_st set_st set_tok set_buf relex pl pst plevel prevend keepws isstyle].
+  split; [exact Hi3|]. split; [exact Hl3|]. split; [rewrite S2, Hst0; reflexivity|].
+  split; [rewrite Hlv2, Hlv; exact Hlv0|]. split; [rewrite S6; exact Hpe0|]. split; [rewrite S1; exact Hkw0|rewrite S7; exact Hsty0].
+Qed.
+
 (* --- the grammar and the units it denotes ------------------------------------------------------------------------ *)
 (* w1 property w2 ':' value-tokens (each with the whitespace before it) w4 ';' *)
 Record decl_t := mkDecl { d_w1 : ws_t; d_prop : list Z; d_w2 : ws_t; d_vals : list wtok; d_w4 : ws_t }.
-(* selector tokens (each with the whitespace before it) w2 '{' declarations w3 '}' *)
-Record rule_t := mkRule { r_sel : list wtok; r_w2 : ws_t; r_decls : list decl_t; r_w3 : ws_t }.
+
+(* a stylesheet in document order: a ruleset is  EOpen selector-tokens w2 '{'  ...  EClose w3 '}'  with declarations and
+   (nested) rulesets between them *)
+Inductive ev := EDecl (d : decl_t) | EOpen (sel : list wtok) (w2 : ws_t) | EClose (w3 : ws_t).
 
 Definition decl_toks (d : decl_t) : list tok :=
   optws (d_w1 d) ++ (TIdent, d_prop d) :: optws (d_w2 d) ++ (TColon, [58]) :: src_toks (d_vals d) ++
   optws (d_w4 d) ++ [(TSemicolon, [59])].
-Definition rule_toks (r : rule_t) : list tok :=
-  src_toks (r_sel r) ++ optws (r_w2 r) ++ (TLeftBrace, [123]) :: concat (map decl_toks (r_decls r)) ++
-  optws (r_w3 r) ++ [(TRightBrace, [125])].
+Definition ev_toks (e : ev) : list tok :=
+  match e with
+  | EDecl d => decl_toks d
+  | EOpen sel w2 => src_toks sel ++ optws w2 ++ [(TLeftBrace, [123])]
+  | EClose w3 => optws w3 ++ [(TRightBrace, [125])]
+  end.
 
 Definition decl_ok (d : decl_t) : Prop := d_vals d <> [] /\ toks_ok 0 (d_vals d) /\ lv_after 0 (d_vals d) = 0.
-Definition sel_ok (l : list wtok) : Prop :=
-  match l with x :: _ => sel_first (fst (snd x)) = true | [] => False end /\ toks_ok 0 l /\ lv_after 0 l = 0.
-Definition rule_ok (r : rule_t) : Prop := sel_ok (r_sel r) /\ Forall decl_ok (r_decls r).
+(* a selector at the top level / of a nested ruleset *)
+Definition sel_ok (first : ttype -> bool) (l : list wtok) : Prop :=
+  match l with x :: _ => first (fst (snd x)) = true | [] => False end /\ toks_ok 0 l /\ lv_after 0 l = 0.
+(* declarations only inside a ruleset, every '}' closes an open ruleset, all closed at the end *)
+Fixpoint evs_ok (depth : nat) (l : list ev) : Prop :=
+  match l with
+  | [] => depth = O
+  | EDecl d :: r => (0 < depth)%nat /\ decl_ok d /\ evs_ok depth r
+  | EOpen sel _ :: r => sel_ok (match depth with O => sel_first | S _ => nest_first end) sel /\ evs_ok (S depth) r
+  | EClose _ :: r => (0 < depth)%nat /\ evs_ok (pred depth) r
+  end.
 
 (* what the caller sees of one call: grammar type, token type, data, and Values() for the units that set them *)
 Definition unit_t := (gtype * ttype * list Z * list tok)%type.
@@ -673,152 +802,139 @@ Definition view (r : gtype * parser) : unit_t :=
   | g => (g, ptt (snd r), pdata (snd r), [])
   end.
 
-Definition decl_unit (d : decl_t) : unit_t := (GDeclaration, TIdent, to_lower (d_prop d), expected_vals (d_vals d)).
-Definition rule_units (r : rule_t) : list unit_t :=
-  (GBeginRuleset, TWhitespace, [], expected_sel (r_sel r)) :: map decl_unit (r_decls r) ++ [(GEndRuleset, TRightBrace, [125], [])].
+Definition ev_unit (e : ev) : unit_t :=
+  match e with
+  | EDecl d => (GDeclaration, TIdent, to_lower (d_prop d), expected_vals (d_vals d))
+  | EOpen sel _ => (GBeginRuleset, TWhitespace, [], expected_sel sel)
+  | EClose _ => (GEndRuleset, TRightBrace, [125], [])
+  end.
 
 Definition last_state (p : parser) (tr : list (gtype * parser)) : parser :=
   match rev tr with r :: _ => snd r | [] => p end.
-
-Lemma last_state_app p tr r : last_state p (tr ++ [r]) = snd r.
-Proof. unfold last_state. rewrite rev_app_distr. reflexivity. Qed.
 
 Lemma last_state_cons p r tr : last_state p (r :: tr) = last_state (snd r) tr.
 Proof.
   unfold last_state. cbn [rev]. destruct (rev tr) as [|x l] eqn:E; [reflexivity|]. reflexivity.
 Qed.
 
-Lemma parse_run_app : forall a b p tr1 tr2, parse_run a p = POk tr1 -> parse_run b (last_state p tr1) = POk tr2 ->
-  parse_run (a + b) p = POk (tr1 ++ tr2).
-Proof.
-  induction a as [|a IH]; intros b p tr1 tr2 H1 H2; cbn [parse_run Nat.add] in *.
-  - apply POk_inj in H1. subst tr1. exact H2.
-  - pinv_bind H1. pinv_bind H1. apply POk_inj in H1. subst tr1. rewrite last_state_cons in H2.
-    cbn [pbind snd]. rewrite (IH _ _ _ _ E0 H2). reflexivity.
-Qed.
-
 Definition no_err (tr : list (gtype * parser)) : Prop := Forall (fun r => perr (snd r) = false) tr.
 
-Lemma decls_run : forall decls p st0 rest,
-  wf_state p (SQualifiedRuleDeclarationList :: st0) (concat (map decl_toks decls) ++ rest) -> Forall decl_ok decls ->
-  exists tr, parse_run (length decls) p = POk tr /\ map view tr = map decl_unit decls /\ no_err tr /\
-    wf_state (last_state p tr) (SQualifiedRuleDeclarationList :: st0) rest.
+Definition stack (depth : nat) : list pstate := repeat SQualifiedRuleDeclarationList depth ++ [SStylesheet].
+
+Lemma evs_run : forall evs depth p rest,
+  wf_state p (stack depth) (concat (map ev_toks evs) ++ rest) -> evs_ok depth evs ->
+  exists tr, parse_run (length evs) p = POk tr /\ map view tr = map ev_unit evs /\ no_err tr /\
+    wf_state (last_state p tr) [SStylesheet] rest.
 Proof.
-  induction decls as [|[w1 prop w2 vl w4] decls IH]; intros p st0 rest Hw Hok.
-  - exists []. cbn [length parse_run map concat app] in *. split; [reflexivity|]. split; [reflexivity|]. split; [constructor|exact Hw].
-  - inversion Hok as [|? ? Hd0 Hok']; subst. unfold decl_ok in Hd0. cbn [d_vals] in Hd0. destruct Hd0 as (Hv & Hp & Hq).
-    cbn [map concat] in Hw. unfold decl_toks at 1 in Hw. cbn [d_w1 d_prop d_w2 d_vals d_w4] in Hw.
-    repeat (rewrite <- app_assoc in Hw; cbn [app] in Hw).
-    destruct (step_decl p st0 w1 prop w2 [58] vl w4 [59] _ Hw Hv Hp Hq) as (p1 & Hn & Ht & Hd & Hb & He & Hw1).
-    destruct (IH p1 st0 rest Hw1 Hok') as (tr & Hrun & Hview & Hne & Hlast).
-    exists ((GDeclaration, p1) :: tr). split; [|split; [|split]].
-    + cbn [length parse_run]. rewrite Hn. cbn [pbind snd]. rewrite Hrun. reflexivity.
-    + cbn [map]. rewrite Hview. f_equal. unfold view, decl_unit. cbn [fst snd d_prop d_vals]. rewrite Ht, Hd, Hb. reflexivity.
-    + constructor; [exact He|exact Hne].
-    + rewrite last_state_cons. exact Hlast.
+  induction evs as [|e evs IH]; intros depth p rest Hw Hok.
+  - cbn [evs_ok] in Hok. subst depth. exists []. cbn [map concat length parse_run app] in *.
+    split; [reflexivity|]. split; [reflexivity|]. split; [constructor|exact Hw].
+  - assert (Hcons : forall g p1 (u : unit_t) depth', parse_next p = POk (g, p1) -> view (g, p1) = u -> perr p1 = false ->
+                    wf_state p1 (stack depth') (concat (map ev_toks evs) ++ rest) -> evs_ok depth' evs -> u = ev_unit e ->
+                    exists tr, parse_run (length (e :: evs)) p = POk tr /\ map view tr = map ev_unit (e :: evs) /\ no_err tr /\
+                      wf_state (last_state p tr) [SStylesheet] rest).
+    { intros g p1 u depth' Hn Hv He Hw1 Hok1 Hu.
+      destruct (IH depth' p1 rest Hw1 Hok1) as (tr & Hrun & Hview & Hne & Hlast).
+      exists ((g, p1) :: tr). split; [|split; [|split]].
+      - cbn [length parse_run]. rewrite Hn. cbn [pbind snd]. rewrite Hrun. reflexivity.
+      - cbn [map]. rewrite Hview, Hv, Hu. reflexivity.
+      - constructor; [exact He|exact Hne].
+      - rewrite last_state_cons. exact Hlast. }
+    destruct e as [[w1 prop w2 vl w4]|sel w2|w3]; cbn [evs_ok] in Hok; cbn [map concat ev_toks] in Hw.
+    + destruct Hok as (Hd & (Hv & Hp & Hq) & Hok). cbn [d_vals] in *.
+      destruct depth as [|depth]; [lia|]. unfold stack in Hw. cbn [repeat app] in Hw.
+      unfold decl_toks in Hw. cbn [d_w1 d_prop d_w2 d_vals d_w4] in Hw. repeat (rewrite <- app_assoc in Hw; cbn [app] in Hw).
+      destruct (step_decl p _ w1 prop w2 [58] vl w4 [59] _ Hw Hv Hp Hq) as (p1 & Hn & Ht & Hdd & Hb & He & Hw1).
+      eapply (Hcons _ p1 _ (S depth) Hn eq_refl He Hw1 Hok). unfold view. cbn [fst snd ev_unit d_prop d_vals]. rewrite Ht, Hdd, Hb. reflexivity.
+    + destruct Hok as ((Hs1 & Hs2 & Hs3) & Hok). destruct sel as [|[o1 [t1 b1]] sl]; [contradiction|]. cbn [fst snd] in Hs1.
+      repeat (rewrite <- app_assoc in Hw; cbn [app] in Hw).
+      destruct depth as [|depth]; unfold stack in Hw; cbn [repeat app] in Hw.
+      * destruct (step_begin p [] o1 t1 b1 sl w2 [123] _ Hw Hs1 Hs2 Hs3) as (p1 & Hn & Ht & Hdd & Hb & He & Hw1).
+        eapply (Hcons _ p1 _ 1%nat Hn eq_refl He Hw1 Hok). unfold view. cbn [fst snd ev_unit]. rewrite Ht, Hdd, Hb. reflexivity.
+      * destruct (step_nested p _ o1 t1 b1 sl w2 [123] _ Hw Hs1 Hs2 Hs3) as (p1 & Hn & Ht & Hdd & Hb & He & Hw1).
+        eapply (Hcons _ p1 _ (S (S depth)) Hn eq_refl He Hw1 Hok). unfold view. cbn [fst snd ev_unit]. rewrite Ht, Hdd, Hb. reflexivity.
+    + destruct Hok as (Hd & Hok). destruct depth as [|depth]; [lia|]. unfold stack in Hw. cbn [repeat app pred] in *.
+      repeat (rewrite <- app_assoc in Hw; cbn [app] in Hw).
+      destruct (step_end p _ w3 [125] _ Hw) as (p1 & Hn & Ht & Hdd & He & Hw1).
+      eapply (Hcons _ p1 _ depth Hn eq_refl He Hw1 Hok). unfold view. cbn [fst snd ev_unit]. rewrite Ht, Hdd. reflexivity.
 Qed.
 
-Lemma rules_run : forall rules p rest,
-  wf_state p [SStylesheet] (concat (map rule_toks rules) ++ rest) -> Forall rule_ok rules ->
-  exists tr, parse_run (length (concat (map rule_units rules))) p = POk tr /\
-    map view tr = concat (map rule_units rules) /\ no_err tr /\ wf_state (last_state p tr) [SStylesheet] rest.
+Lemma parse_run_snoc : forall a p tr1 r, parse_run a p = POk tr1 -> parse_next (last_state p tr1) = POk r ->
+  parse_run (a + 1) p = POk (tr1 ++ [r]).
 Proof.
-  induction rules as [|[sel w2 decls w3] rules IH]; intros p rest Hw Hok.
-  - exists []. cbn [map concat length parse_run app] in *. split; [reflexivity|]. split; [reflexivity|]. split; [constructor|exact Hw].
-  - inversion Hok as [|? ? (Hs & Hd) Hok']; subst. cbn [r_sel r_decls] in *.
-    cbn [map concat] in Hw. unfold rule_toks at 1 in Hw. cbn [r_sel r_w2 r_decls r_w3] in Hw.
-    destruct Hs as (Hs1 & Hs2 & Hs3). destruct sel as [|[o1 [t1 b1]] sl]; [contradiction|]. cbn [fst snd] in Hs1.
-    repeat (rewrite <- app_assoc in Hw; cbn [app] in Hw).
-    destruct (step_begin p [] o1 t1 b1 sl w2 [123] _ Hw Hs1 Hs2 Hs3) as (p1 & Hn1 & Ht1 & Hd1 & Hb1 & He1 & Hw1).
-    destruct (decls_run decls p1 [SStylesheet] _ Hw1 Hd) as (tr2 & Hrun2 & Hview2 & Hne2 & Hw2).
-    destruct (step_end _ [SStylesheet] w3 [125] _ Hw2) as (p3 & Hn3 & Ht3 & Hd3 & He3 & Hw3).
-    destruct (IH p3 rest Hw3 Hok') as (tr4 & Hrun4 & Hview4 & Hne4 & Hw4).
-    exists (((GBeginRuleset, p1) :: tr2 ++ [(GEndRuleset, p3)]) ++ tr4).
-    assert (Hrun123 : parse_run (S (length decls + 1)) p = POk ((GBeginRuleset, p1) :: tr2 ++ [(GEndRuleset, p3)])).
-    { cbn [parse_run]. rewrite Hn1. cbn [pbind snd].
-      rewrite (parse_run_app (length decls) 1 p1 tr2 [(GEndRuleset, p3)] Hrun2); [reflexivity|].
-      cbn [parse_run]. rewrite Hn3. reflexivity. }
-    split; [|split; [|split]].
-    + match goal with |- parse_run ?n p = _ =>
-        replace n with (S (length decls + 1) + length (concat (map rule_units rules)))%nat end.
-      2:{ cbn [map concat]. rewrite app_length. unfold rule_units. cbn [r_sel r_decls length]. rewrite app_length, map_length. cbn [length]. lia. }
-      apply parse_run_app; [exact Hrun123|].
-      rewrite last_state_cons, last_state_app. exact Hrun4.
-    + cbn [map concat]. unfold rule_units at 1. cbn [r_sel r_decls]. rewrite map_app. cbn [map]. rewrite map_app. cbn [map].
-      rewrite Hview2, Hview4. unfold view at 1 2. cbn [fst snd]. rewrite Ht1, Hd1, Hb1, Ht3, Hd3.
-      reflexivity.
-    + unfold no_err in *. apply Forall_app. split; [|exact Hne4]. constructor; [exact He1|].
-      apply Forall_app. split; [exact Hne2|]. constructor; [exact He3|constructor].
-    + unfold last_state. rewrite rev_app_distr.
-      destruct (rev tr4) as [|x l] eqn:E.
-      * cbn [app]. rewrite <- (rev_involutive tr4) in Hw4. rewrite E in Hw4. cbn [rev] in Hw4.
-        change (last_state p3 []) with p3 in Hw4.
-        cbn [rev]. rewrite rev_app_distr. cbn [rev app snd]. exact Hw4.
-      * cbn [app]. unfold last_state in Hw4. rewrite E in Hw4. exact Hw4.
+  induction a as [|a IH]; intros p tr1 r H1 H2; cbn [parse_run Nat.add] in *.
+  - apply POk_inj in H1. subst tr1. change (last_state p []) with p in H2. rewrite H2. reflexivity.
+  - pinv_bind H1. pinv_bind H1. apply POk_inj in H1. subst tr1. rewrite last_state_cons in H2.
+    cbn [pbind snd]. rewrite (IH _ _ _ E0 H2). reflexivity.
 Qed.
 
-(* C08 (partial): a stylesheet whose token list (as the lexer returns it) is a sequence of rulesets
-       ws? ident ws? '{' ( ws? ident ws? ':' ws? value ws? ';' )* ws? '}'        followed by  ws?
-   yields exactly BeginRuleset [selector], one Declaration (lower-cased property name, [value]) per declaration,
-   EndRuleset — for every rule in order — and then the end-of-input report; no parse error is reported and no
-   whitespace shows up in Values(). *)
-Lemma cssparse_wellformed_proof : forall d rules w,
-  css_lex d = LexDone (concat (map rule_toks rules) ++ optws w) -> Forall rule_ok rules ->
-  exists tr, parse_run (length (concat (map rule_units rules)) + 1) (new_parser d false) = POk tr /\
-    map view tr = concat (map rule_units rules) ++ [(GError, TError, [], [])] /\ no_err tr.
+(* C08 (partial): a stylesheet whose token list (as the lexer returns it) is, in document order, a sequence of events
+       EOpen:  (ws? selector-token)+ ws? '{'      EDecl:  ws? ident ws? ':' (ws? value-token)+ ws? ';'      EClose:  ws? '}'
+   that nest properly (evs_ok), followed by ws?, yields exactly one unit per event - BeginRuleset [expected_sel],
+   Declaration (lower-cased property name, expected_vals), EndRuleset - and then the end-of-input report; no parse
+   error is reported. *)
+Lemma cssparse_wellformed_proof : forall d evs w,
+  css_lex d = LexDone (concat (map ev_toks evs) ++ optws w) -> evs_ok 0 evs ->
+  exists tr, parse_run (length evs + 1) (new_parser d false) = POk tr /\
+    map view tr = map ev_unit evs ++ [(GError, TError, [], [])] /\ no_err tr.
 Proof.
-  intros d rules w Hlex Hok.
-  assert (Hw : wf_state (new_parser d false) [SStylesheet] (concat (map rule_toks rules) ++ optws w)).
-  { unfold wf_state. cbn [new_parser pl pst plevel prevend keepws isstyle negb]. split; [apply css_inv_init|].
+  intros d evs w Hlex Hok.
+  assert (Hw : wf_state (new_parser d false) (stack 0) (concat (map ev_toks evs) ++ optws w)).
+  { unfold wf_state, stack. cbn [repeat app new_parser pl pst plevel prevend keepws isstyle negb]. split; [apply css_inv_init|].
     split; [exists (S (length d)); exact Hlex|]. auto. }
-  destruct (rules_run rules _ _ Hw Hok) as (tr & Hrun & Hview & Hne & Hw').
+  destruct (evs_run evs _ _ _ Hw Hok) as (tr & Hrun & Hview & Hne & Hw').
   destruct (step_eof _ _ Hw') as (p' & Hn & He & Ht).
   exists (tr ++ [(GError, p')]). split; [|split].
-  - apply parse_run_app; [exact Hrun|]. cbn [parse_run]. rewrite Hn. reflexivity.
+  - apply parse_run_snoc; assumption.
   - rewrite map_app, Hview. cbn [map]. unfold view. cbn [fst snd]. rewrite Ht. reflexivity.
   - unfold no_err. apply Forall_app. split; [exact Hne|]. constructor; [exact He|constructor].
 Qed.
 
-(* "a{B:1;c:x;}d{}"  and  " a {\n B : 1 ;c:x; }\nd{}\n" *)
+(* "a{B:1;c:x;}d{}" *)
 Example wellformed_example :
-  let rules := [mkRule [(None, (TIdent, [97]))] None [mkDecl None [66] None [(None, (TNumber, [49]))] None; mkDecl None [99] None [(None, (TIdent, [120]))] None] None;
-                mkRule [(None, (TIdent, [100]))] None [] None] in
-  css_lex [97; 123; 66; 58; 49; 59; 99; 58; 120; 59; 125; 100; 123; 125] = LexDone (concat (map rule_toks rules) ++ optws None) /\
-  Forall rule_ok rules.
+  let evs := [EOpen [(None, (TIdent, [97]))] None; EDecl (mkDecl None [66] None [(None, (TNumber, [49]))] None);
+              EDecl (mkDecl None [99] None [(None, (TIdent, [120]))] None); EClose None;
+              EOpen [(None, (TIdent, [100]))] None; EClose None] in
+  css_lex [97; 123; 66; 58; 49; 59; 99; 58; 120; 59; 125; 100; 123; 125] = LexDone (concat (map ev_toks evs) ++ optws None) /\
+  evs_ok 0 evs.
 Proof.
   cbv zeta. split; [vm_compute; reflexivity|].
-  repeat (first [discriminate | reflexivity | constructor]).
+  repeat (first [discriminate | reflexivity | lia | split]).
 Qed.
 
+(* " a {\n B : 1 ;c:x; }\nd{}\n" *)
 Example wellformed_example_ws :
-  let rules := [mkRule [(Some [32], (TIdent, [97]))] (Some [32])
-                  [mkDecl (Some [10; 32]) [66] (Some [32]) [(Some [32], (TNumber, [49]))] (Some [32]);
-                   mkDecl None [99] None [(None, (TIdent, [120]))] None] (Some [32]);
-                mkRule [(Some [10], (TIdent, [100]))] None [] None] in
+  let evs := [EOpen [(Some [32], (TIdent, [97]))] (Some [32]);
+              EDecl (mkDecl (Some [10; 32]) [66] (Some [32]) [(Some [32], (TNumber, [49]))] (Some [32]));
+              EDecl (mkDecl None [99] None [(None, (TIdent, [120]))] None); EClose (Some [32]);
+              EOpen [(Some [10], (TIdent, [100]))] None; EClose None] in
   css_lex [32; 97; 32; 123; 10; 32; 66; 32; 58; 32; 49; 32; 59; 99; 58; 120; 59; 32; 125; 10; 100; 123; 125; 10] =
-    LexDone (concat (map rule_toks rules) ++ optws (Some [10])) /\
-  Forall rule_ok rules.
+    LexDone (concat (map ev_toks evs) ++ optws (Some [10])) /\
+  evs_ok 0 evs.
 Proof.
   cbv zeta. split; [vm_compute; reflexivity|].
-  repeat (first [discriminate | reflexivity | constructor]).
+  repeat (first [discriminate | reflexivity | lia | split]).
 Qed.
 
 (* "a{b: 1px  solid , red ;c:rgb(1, 2)}" : Values() = [1px " " solid , red] and [rgb( 1 , 2 )] *)
 Example wellformed_example_values :
-  let rules := [mkRule [(None, (TIdent, [97]))] None
-                  [mkDecl None [98] None [(Some [32], (TDimension, [49; 112; 120])); (Some [32; 32], (TIdent, [115; 111; 108; 105; 100]));
-                                         (Some [32], (TComma, [44])); (Some [32], (TIdent, [114; 101; 100]))] (Some [32]);
-                   mkDecl None [99] None [(None, (TFunction, [114; 103; 98; 40])); (None, (TNumber, [49])); (None, (TComma, [44]));
-                                         (Some [32], (TNumber, [50])); (None, (TRightParenthesis, [41]))] None] None] in
+  let evs := [EOpen [(None, (TIdent, [97]))] None;
+              EDecl (mkDecl None [98] None [(Some [32], (TDimension, [49; 112; 120])); (Some [32; 32], (TIdent, [115; 111; 108; 105; 100]));
+                                            (Some [32], (TComma, [44])); (Some [32], (TIdent, [114; 101; 100]))] (Some [32]));
+              EDecl (mkDecl None [99] None [(None, (TFunction, [114; 103; 98; 40])); (None, (TNumber, [49])); (None, (TComma, [44]));
+                                            (Some [32], (TNumber, [50])); (None, (TRightParenthesis, [41]))] None);
+              EClose None] in
   css_lex [97; 123; 98; 58; 32; 49; 112; 120; 32; 32; 115; 111; 108; 105; 100; 32; 44; 32; 114; 101; 100; 32; 59;
-           99; 58; 114; 103; 98; 40; 49; 44; 32; 50; 41; 59; 125] = LexDone (concat (map rule_toks rules) ++ optws None) /\
-  Forall rule_ok rules /\
-  map decl_unit (r_decls (hd (mkRule [] None [] None) rules)) =
-    [(GDeclaration, TIdent, [98], [(TDimension, [49; 112; 120]); sp; (TIdent, [115; 111; 108; 105; 100]); (TComma, [44]); (TIdent, [114; 101; 100])]);
-     (GDeclaration, TIdent, [99], [(TFunction, [114; 103; 98; 40]); (TNumber, [49]); (TComma, [44]); (TNumber, [50]); (TRightParenthesis, [41])])].
+           99; 58; 114; 103; 98; 40; 49; 44; 32; 50; 41; 59; 125] = LexDone (concat (map ev_toks evs) ++ optws None) /\
+  evs_ok 0 evs /\
+  map ev_unit evs =
+    [(GBeginRuleset, TWhitespace, [], [(TIdent, [97])]);
+     (GDeclaration, TIdent, [98], [(TDimension, [49; 112; 120]); sp; (TIdent, [115; 111; 108; 105; 100]); (TComma, [44]); (TIdent, [114; 101; 100])]);
+     (GDeclaration, TIdent, [99], [(TFunction, [114; 103; 98; 40]); (TNumber, [49]); (TComma, [44]); (TNumber, [50]); (TRightParenthesis, [41])]);
+     (GEndRuleset, TRightBrace, [125], [])].
 Proof.
   cbv zeta. split; [vm_compute; reflexivity|]. split; [|vm_compute; reflexivity].
-  repeat (first [discriminate | reflexivity | constructor]).
+  repeat (first [discriminate | reflexivity | lia | split]).
 Qed.
 
 (* "a > b  c,d [ x=y ] e{}" : Values() of BeginRuleset = a > b " " c , d " " [ x = y ] " " e *)
@@ -826,13 +942,32 @@ Example wellformed_example_selector :
   let sel := [(None, (TIdent, [97])); (Some [32], (TDelim, [62])); (Some [32], (TIdent, [98])); (Some [32; 32], (TIdent, [99]));
               (None, (TComma, [44])); (None, (TIdent, [100])); (Some [32], (TLeftBracket, [91])); (Some [32], (TIdent, [120]));
               (None, (TDelim, [61])); (None, (TIdent, [121])); (Some [32], (TRightBracket, [93])); (Some [32], (TIdent, [101]))] in
-  let rules := [mkRule sel None [] None] in
+  let evs := [EOpen sel None; EClose None] in
   css_lex [97; 32; 62; 32; 98; 32; 32; 99; 44; 100; 32; 91; 32; 120; 61; 121; 32; 93; 32; 101; 123; 125] =
-    LexDone (concat (map rule_toks rules) ++ optws None) /\
-  Forall rule_ok rules /\
+    LexDone (concat (map ev_toks evs) ++ optws None) /\
+  evs_ok 0 evs /\
   expected_sel sel = [(TIdent, [97]); (TDelim, [62]); (TIdent, [98]); sp; (TIdent, [99]); (TComma, [44]); (TIdent, [100]); sp;
                       (TLeftBracket, [91]); (TIdent, [120]); (TDelim, [61]); (TIdent, [121]); (TRightBracket, [93]); sp; (TIdent, [101])].
 Proof.
   cbv zeta. split; [vm_compute; reflexivity|]. split; [|vm_compute; reflexivity].
-  repeat (first [discriminate | reflexivity | constructor]).
+  repeat (first [discriminate | reflexivity | lia | split]).
+Qed.
+
+(* "a{b , c d{e:f;}g:h;}" : a nested ruleset; its selector is compacted like a top-level one: b , c " " d *)
+Example wellformed_example_nested :
+  let evs := [EOpen [(None, (TIdent, [97]))] None;
+              EOpen [(None, (TIdent, [98])); (Some [32], (TComma, [44])); (Some [32], (TIdent, [99])); (Some [32], (TIdent, [100]))] None;
+              EDecl (mkDecl None [101] None [(None, (TIdent, [102]))] None); EClose None;
+              EDecl (mkDecl None [103] None [(None, (TIdent, [104]))] None); EClose None] in
+  css_lex [97; 123; 98; 32; 44; 32; 99; 32; 100; 123; 101; 58; 102; 59; 125; 103; 58; 104; 59; 125] =
+    LexDone (concat (map ev_toks evs) ++ optws None) /\
+  evs_ok 0 evs /\
+  map ev_unit evs =
+    [(GBeginRuleset, TWhitespace, [], [(TIdent, [97])]);
+     (GBeginRuleset, TWhitespace, [], [(TIdent, [98]); (TComma, [44]); (TIdent, [99]); sp; (TIdent, [100])]);
+     (GDeclaration, TIdent, [101], [(TIdent, [102])]); (GEndRuleset, TRightBrace, [125], []);
+     (GDeclaration, TIdent, [103], [(TIdent, [104])]); (GEndRuleset, TRightBrace, [125], [])].
+Proof.
+  cbv zeta. split; [vm_compute; reflexivity|]. split; [|vm_compute; reflexivity].
+  repeat (first [discriminate | reflexivity | lia | split]).
 Qed.
